@@ -143,6 +143,55 @@ def build(run):
             return proved("exec(one-change pair)", vcs=1, sample=f"{vname}: signatures differ")
         run.add(f"one-change/{vname}", pair_ob2, kind="values")
 
+    # ------------------------------------------------------------------ multi-index hash data: injective up to renaming of free indices
+    def multiindex_injective():
+        from ufl.core.multiindex import FixedIndex, Index, MultiIndex
+        I_, J_, K_ = Index(), Index(), Index()
+        alphabet = [("i", I_), ("j", J_), ("k", K_), (0, FixedIndex(0)), (1, FixedIndex(1)), (2, FixedIndex(2))]
+        seqs = []
+        for n1 in (1, 2):
+            for a in itertools.product(alphabet, repeat=n1):
+                seqs.append([a])
+                for n2 in (1, 2):
+                    for b in itertools.product(alphabet[:5], repeat=n2):
+                        seqs.append([a, b])
+
+        def pattern(seq):
+            names, out = {}, []
+            for mi in seq:
+                row = []
+                for nm, _ in mi:
+                    if isinstance(nm, str):
+                        row.append(("free", names.setdefault(nm, len(names))))
+                    else:
+                        row.append(("fixed", nm))
+                out.append(tuple(row))
+            return tuple(out)
+        seen = {}
+        n = 0
+        for seq in seqs:
+            numbering = {}
+            data = tuple(SIG.compute_multiindex_hashdata(MultiIndex(tuple(ix for _, ix in mi)), numbering) for mi in seq)
+            pat = pattern(seq)
+            n += 1
+            if data in seen and seen[data] != pat:
+                return violated(f"compute_multiindex_hashdata gives the same data {data} to the index patterns {seen[data]} and {pat}",
+                                replay={"data": repr(data), "patterns": [repr(seen[data]), repr(pat)]}, reproduced=True, backend="exec")
+            seen.setdefault(data, pat)
+            for mi, row in zip(seq, data):
+                for (nm, _), v in zip(mi, row):
+                    if isinstance(nm, str) != (v < 0):
+                        return violated(f"compute_multiindex_hashdata encodes {'a free index' if isinstance(nm, str) else 'the fixed index ' + str(nm)} as {v}: free indices must be "
+                                        "negative and fixed indices non-negative to stay apart", replay={"sequence": repr(pat), "data": repr(data)}, reproduced=True, backend="exec")
+        pats = {}
+        for seq in seqs:
+            numbering = {}
+            data = tuple(SIG.compute_multiindex_hashdata(MultiIndex(tuple(ix for _, ix in mi)), numbering) for mi in seq)
+            if pats.setdefault(pattern(seq), data) != data:
+                return violated("compute_multiindex_hashdata depends on which Index objects are used, not only on the pattern", replay={"pattern": repr(pattern(seq))}, reproduced=True)
+        return proved("exec(exhaustive over sequences)", vcs=n, sample=f"{n} sequences of <= 2 multi-indices of length <= 2 over 3 free and 3 fixed indices: data equal iff pattern equal")
+    run.add("multiindex-hashdata-injective", multiindex_injective, kind="proof")
+
     # ------------------------------------------------------------------ (b) reconstruct passes only operands
     def reconstruct_ob():
         n, extra = 0, {}
